@@ -35,6 +35,7 @@ LEVEL_NOTE = ('Lean kernel; hand transcription Model/Morgan.lean validated by ex
 TECHNIQUE = 'Lean 4 equivariance theorems over an executable Morgan model + exact correspondence + relational validation of canonical strings'
 HAS_DRIVER = True
 EXTRA_MODULES = []
+FINDINGS_MODULE = 'ChythonModel.Findings.C01'
 RULE = ('K case = (entry point, molecule in one concrete numbering and dict insertion order) or (_morgan, weights, adjacency); '
         'molecules: repo corpus sample, hand-made set, exhaustive small graphs with random decoration, ring assemblies, each '
         'also under random renumberings with shuffled atom/bond insertion order. Non-trivial = at least 2 atoms (so that the '
